@@ -44,12 +44,14 @@ type vConnFrame struct {
 	result int
 	itype  int
 	used   bool
+	bin    bool // a 64-byte binary frame (a connection in ADMIN mode receives both formats on one stream)
 }
 
 type vConnReader struct {
 	mu     sync.Mutex
 	conn   net.Conn
 	text   bool
+	mixed  bool // after ADMIN: RESP values, and binary frames (recognised by the magic byte) for the outer protocol
 	buf    []byte
 	nbytes int64
 	frames []*vConnFrame
@@ -92,6 +94,29 @@ func vConnTokOfHex(h string) int {
 
 // parse: called with r.mu held
 func (r *vConnReader) parse() {
+	if r.mixed {
+		for len(r.buf) > 0 {
+			if r.buf[0] == protocol.MAGIC {
+				if len(r.buf) < 64 {
+					return
+				}
+				r.text = false
+				r.parseOne()
+				continue
+			}
+			r.text = true
+			if !r.parseOne() {
+				return
+			}
+		}
+		return
+	}
+	for r.parseOne() {
+	}
+}
+
+// parseOne: one frame / one RESP value off the front of the buffer (r.mu held); false = incomplete
+func (r *vConnReader) parseOne() bool {
 	if !r.text {
 		for len(r.buf) >= 64 {
 			f := r.buf[:64]
@@ -106,15 +131,17 @@ func (r *vConnReader) parse() {
 			if fr.tok >= vConnAux || (f[2] != protocol.COMMAND_LOCK && f[2] != protocol.COMMAND_UNLOCK) {
 				fr.kind = 'C'
 			}
+			fr.bin = true
 			r.frames = append(r.frames, fr)
 			r.buf = r.buf[64:]
+			return true
 		}
-		return
+		return false
 	}
 	for {
 		vals, n := vConnRESP(r.buf)
 		if n == 0 {
-			return
+			return false
 		}
 		r.buf = r.buf[n:]
 		fr := &vConnFrame{kind: 'E', tok: -1}
@@ -126,6 +153,7 @@ func (r *vConnReader) parse() {
 			fr.tok = vConnTokOfHex(vals[3])
 		}
 		r.frames = append(r.frames, fr)
+		return true
 	}
 }
 
@@ -185,14 +213,26 @@ func vConnRESP(b []byte) ([]string, int) {
 // ---------------------------------------------------------------------------------------------
 // one connection
 
+// will kinds (typ). Submitted to the engine: L0 lock a fresh key | Lw lock a pinned (held) key, waits | Uo unlock an own hold |
+// Uw unlock the hold of an earlier L0 will | Ls lock a key the connection holds under the same LockId (LOCKED_ERROR) |
+// Um unlock a key nobody holds (UNLOCK_ERROR) | Ln lock in a db that does not exist yet (created by the will) |
+// Ld the frame of an earlier L0 will once more (same RequestId; LOCKED_ERROR).
+// Answered by the protocol itself (UNKNOWN_DB, never reaches the engine): Lx / Ux lock / unlock with DbId 0xff |
+// Un unlock in a db id that was never created.
 type vConnWill struct {
 	tok    int
 	imm    bool
-	typ    string // L0 lock a fresh key | Lw lock a pinned (held) key, waits | Uo unlock an own hold | Uw unlock the hold of an earlier L0 will
+	self   bool
+	typ    string
 	key    int
-	target int // Uo / Uw: LockId to unlock
+	db     int
+	target int // Uo / Uw / Ls: LockId
 	pair   *vConnWill
+	noPair bool
+	cmd    *protocol.LockCommand // the command object the server queued (evidence of execution: attached to a lock, or freed)
 }
+
+const vConnDbMissing, vConnDbNew = 8, 9
 
 type vConnC struct {
 	idx       int
@@ -212,6 +252,8 @@ type vConnC struct {
 	wills     []*vConnWill
 	blocked   int // text: token of the LOCK the handler is blocked on
 	helper    bool
+	nested    *vConnC // binary connection in ADMIN mode: its nested text protocol (same pipe, same goroutine)
+	outer     *vConnC
 }
 
 func (c *vConnC) serve() {
@@ -269,6 +311,9 @@ func (c *vConnC) take(pred func(*vConnFrame) bool) *vConnFrame {
 	c.rd.mu.Lock()
 	defer c.rd.mu.Unlock()
 	for _, f := range c.rd.frames {
+		if c.rd.mixed && f.bin != (c.kind == 'b') {
+			continue
+		}
 		if !f.used && pred(f) {
 			f.used = true
 			return f
@@ -284,8 +329,12 @@ func (c *vConnC) waitFrame(pred func(*vConnFrame) bool, d time.Duration) *vConnF
 }
 
 func vConnLockFrame(ct uint8, req, lockId, key, timeout, expried int) []byte {
+	return vConnLockFrameDb(ct, req, lockId, key, timeout, expried, 0)
+}
+
+func vConnLockFrameDb(ct uint8, req, lockId, key, timeout, expried, db int) []byte {
 	c := &protocol.LockCommand{Command: protocol.Command{Magic: protocol.MAGIC, Version: protocol.VERSION, CommandType: ct, RequestId: vId16(req)},
-		DbId: 0, LockId: vId16(lockId), LockKey: vId16(key), Timeout: uint16(timeout), Expried: uint16(expried)}
+		DbId: uint8(db), LockId: vId16(lockId), LockKey: vId16(key), Timeout: uint16(timeout), Expried: uint16(expried)}
 	b := make([]byte, 64)
 	_ = c.Encode(b)
 	return b
@@ -323,28 +372,29 @@ type vConnScan struct {
 }
 
 type vConnRun struct {
-	v        *vSeq
-	out      *vOut
-	r        *rand.Rand
-	idx      int
-	risky    bool
-	conns    []*vConnC
-	ops, obs []string
-	keys     []int
-	nextKey  int
-	nextTok  int
-	nextAux  int
-	nextCid  int
-	toks     map[int]*vConnTok
-	live     map[int]byte // tracked tokens: 'w' queued, 'h' held
-	dead     string
-	seen     map[string]bool
-	pend     []func(line string)
-	pendFile string
-	nticks   int
-	ue0      int // UnlockErrorCount before the action in progress
-	uc0      int // UnLockCount before the action in progress
-	orderBad bool
+	v         *vSeq
+	out       *vOut
+	r         *rand.Rand
+	idx       int
+	risky     bool
+	conns     []*vConnC
+	ops, obs  []string
+	keys      []int
+	nextKey   int
+	nextTok   int
+	nextAux   int
+	nextCid   int
+	toks      map[int]*vConnTok
+	live      map[int]byte // tracked tokens: 'w' queued, 'h' held
+	dead      string
+	seen      map[string]bool
+	pend      []func(line string)
+	pendFile  string
+	nticks    int
+	ue0       int // UnlockErrorCount before the action in progress
+	uc0       int // UnLockCount before the action in progress
+	orderBad  bool
+	usedNewDb bool
 }
 
 func (x *vConnRun) report(sig, what string) {
@@ -456,6 +506,38 @@ func (x *vConnRun) open(kind byte, helper bool) *vConnC {
 	return c
 }
 
+// admin: binary ADMIN command — a nested TextServerProtocol takes over the stream (a new record in the script)
+func (x *vConnRun) admin(c *vConnC) *vConnC {
+	id := x.aux()
+	ac := &protocol.AdminCommand{Command: protocol.Command{Magic: protocol.MAGIC, Version: protocol.VERSION, CommandType: protocol.COMMAND_ADMIN, RequestId: vId16(id)}}
+	b := make([]byte, 64)
+	_ = ac.Encode(b)
+	ob := "noreply"
+	if c.write(b) == nil && c.waitFrame(func(f *vConnFrame) bool { return f.kind == 'C' && f.tok == id }, 3*time.Second) != nil {
+		ob = "ok"
+	}
+	c.rd.mu.Lock()
+	for _, f := range c.rd.frames {
+		f.bin = true
+	}
+	c.rd.mixed = true
+	c.rd.mu.Unlock()
+	var tp *TextServerProtocol
+	vConnWait(func() bool {
+		tp, _ = c.stream.protocol.(*TextServerProtocol)
+		return tp != nil
+	}, 3*time.Second)
+	n := &vConnC{idx: len(x.conns), kind: 't', cli: c.cli, stream: c.stream, tp: tp, rd: c.rd, done: c.done, outer: c}
+	c.nested = n
+	x.conns = append(x.conns, n)
+	if tp == nil {
+		ob = "no-nested-protocol"
+	}
+	x.ev(fmt.Sprintf("a %d", c.idx), ob)
+	x.out.stat("admin")
+	return n
+}
+
 func (x *vConnRun) registeredSelf(c *vConnC) bool {
 	if c.kind != 'b' {
 		return false
@@ -493,13 +575,31 @@ func (x *vConnRun) will(c *vConnC, w *vConnWill) {
 	if w.typ[0] == 'U' {
 		ct, name, lockId = protocol.COMMAND_WILL_UNLOCK, "UNLOCK", w.target
 	}
+	if w.typ == "Ls" {
+		lockId = w.target
+	}
 	ok := false
 	if c.kind == 'b' {
-		ok = c.write(vConnLockFrame(ct, w.tok, lockId, w.key, timeout, expried)) == nil && x.fence(c)
+		ok = c.write(vConnLockFrameDb(ct, w.tok, lockId, w.key, timeout, expried, w.db)) == nil && x.fence(c)
+		if c.bp.willCommands != nil {
+			w.cmd = c.bp.willCommands.Tail()
+		}
 	} else {
+		sel := func(db int) bool {
+			return c.write(vConnRESPCmd("SELECT", fmt.Sprint(db))) == nil && c.waitFrame(func(f *vConnFrame) bool { return f.kind == 'K' }, 3*time.Second) != nil
+		}
+		if w.db != 0 {
+			sel(w.db)
+		}
 		args := []string{name, vConnHex16(w.key), "LOCK_ID", vConnHex16(lockId), "TIMEOUT", fmt.Sprint(timeout), "EXPRIED", fmt.Sprint(expried), "WILL", "1"}
 		if c.write(vConnRESPCmd(args...)) == nil {
 			ok = c.waitFrame(func(f *vConnFrame) bool { return f.kind == 'K' }, 3*time.Second) != nil
+		}
+		if c.tp.willCommands != nil {
+			w.cmd = c.tp.willCommands.Tail()
+		}
+		if w.db != 0 {
+			sel(0)
 		}
 	}
 	c.wills = append(c.wills, w)
@@ -511,7 +611,11 @@ func (x *vConnRun) will(c *vConnC, w *vConnWill) {
 	if w.imm {
 		im = 1
 	}
-	x.ev(fmt.Sprintf("w %d %d %d %s k%d id%d", c.idx, w.tok, im, w.typ, w.key, lockId), ob)
+	sf := 0
+	if w.self {
+		sf = 1
+	}
+	x.ev(fmt.Sprintf("w %d %d %d %d %s k%d id%d db%d", c.idx, w.tok, im, sf, w.typ, w.key, lockId, w.db), ob)
 	x.out.stat("will-" + string(c.kind) + "-" + w.typ)
 	x.check()
 }
@@ -639,7 +743,7 @@ func (x *vConnRun) follow(ctx byte, reqTok int, reqConn *vConnC) {
 					return
 				}
 				owner.blocked = 0
-				ob := x.closeEvidence(owner, vConnScan{}, nil)
+				ob := x.streamEvidence(owner, vConnScan{}, nil)
 				x.ev(fmt.Sprintf("d %d", tok), "lost+"+ob)
 				if x.dead != "" {
 					return
@@ -755,8 +859,68 @@ func (x *vConnRun) wouldCrash(c *vConnC) bool {
 		return false
 	}
 	for _, w := range c.wills {
-		if w.imm {
+		if w.imm || w.self {
 			return true
+		}
+	}
+	return false
+}
+
+// cmdAttached: the will's command object belongs to a live lock (hold or queued request) of its key
+func (x *vConnRun) cmdAttached(w *vConnWill) bool {
+	if w.cmd == nil || w.db == 0xff {
+		return false
+	}
+	db := x.v.slock.dbs[w.db]
+	if db == nil {
+		return false
+	}
+	m := db.GetLockManager(&protocol.LockCommand{LockKey: vId16(w.key)})
+	if m == nil {
+		return false
+	}
+	m.glock.Lock()
+	defer m.glock.Unlock()
+	if m.lockKey != vId16(w.key) {
+		return false
+	}
+	if m.currentLock != nil && m.currentLock.command == w.cmd {
+		return true
+	}
+	if m.locks != nil {
+		for _, node := range m.locks.IterNodes() {
+			for _, l := range node {
+				if l != nil && l.command == w.cmd {
+					return true
+				}
+			}
+		}
+	}
+	if m.waitLocks != nil {
+		for _, node := range m.waitLocks.IterNodes() {
+			for _, l := range node {
+				if l != nil && l.command == w.cmd {
+					return true
+				}
+			}
+		}
+	}
+	return false
+}
+
+// cmdFreed: the will's command object was handed back to the server's free list (the engine / the protocol is done with it)
+func (x *vConnRun) cmdFreed(w *vConnWill) bool {
+	if w.cmd == nil {
+		return false
+	}
+	s := x.v.slock
+	s.freeLockCommandLock.Lock()
+	defer s.freeLockCommandLock.Unlock()
+	for _, node := range s.freeLockCommandQueue.IterNodes() {
+		for _, c := range node {
+			if c == w.cmd {
+				return true
+			}
 		}
 	}
 	return false
@@ -800,66 +964,125 @@ func vConnKindName(k byte) string {
 	return "text"
 }
 
-// close: the script ends connection c. cause: 'c' client closes its end, 'e' protocol error, 's' server closes the stream
+// streamEvidence: the stream of c has ended and its goroutine has finished: a running nested text protocol ended first, then
+// the connection itself
+func (x *vConnRun) streamEvidence(c *vConnC, pre vConnScan, ph map[*vConnC]map[int]bool) string {
+	o := c
+	if c.outer != nil {
+		o = c.outer
+	}
+	if n := o.nested; n != nil && !n.srvClosed {
+		a := x.closeEvidence(n, pre, ph[n])
+		if x.dead != "" {
+			return a
+		}
+		b := x.closeEvidence(o, pre, ph[o])
+		if x.dead != "" {
+			return b
+		}
+		ord := strings.Contains(a, "!order") || strings.Contains(b, "!order")
+		pa := strings.TrimSuffix(strings.TrimPrefix(strings.TrimSuffix(a, "!order"), "W["), "]")
+		pb := strings.TrimSuffix(strings.TrimPrefix(strings.TrimSuffix(b, "!order"), "W["), "]")
+		var parts []string
+		for _, p := range []string{pa, pb} {
+			if p != "" {
+				parts = append(parts, p)
+			}
+		}
+		r := "W[" + strings.Join(parts, ",") + "]"
+		if ord {
+			r += "!order"
+		}
+		return r
+	}
+	return x.closeEvidence(o, pre, ph[o])
+}
+
+func (x *vConnRun) holdsOf(c *vConnC) map[int]bool {
+	m := map[int]bool{}
+	for tok, st := range x.live {
+		if st == 'h' && x.toks[tok].owner == c.idx {
+			m[tok] = true
+		}
+	}
+	return m
+}
+
+// close: the script ends the stream of connection c. cause: 'c' client closes its end, 'e' protocol error, 's' server closes
+// the stream, 'q' binary QUIT. For a connection in ADMIN mode (c = the binary connection or its nested text protocol) the
+// protocol reading the stream is the nested one.
 func (x *vConnRun) close(c *vConnC, cause byte) {
 	if x.dead != "" {
 		return
 	}
 	op := fmt.Sprintf("x %d %c", c.idx, cause)
-	if c.srvClosed {
+	o := c
+	if c.outer != nil {
+		o = c.outer
+	}
+	act := o // the protocol whose Process() loop reads the stream
+	if o.nested != nil && !o.nested.srvClosed {
+		act = o.nested
+	}
+	if o.srvClosed {
 		// idempotence: Close() again, directly
-		before := x.closeStateDigest(c)
-		if c.kind == 'b' {
-			_ = c.bp.Close()
+		before := x.closeStateDigest(o)
+		if o.kind == 'b' {
+			_ = o.bp.Close()
 		} else {
-			_ = c.tp.Close()
+			_ = o.tp.Close()
 		}
 		ob := "noop"
-		if after := x.closeStateDigest(c); after != before {
+		if after := x.closeStateDigest(o); after != before {
 			ob = "changed"
-			x.report("C18:close-not-idempotent", fmt.Sprintf("a second Close() of connection %d changed state: %s -> %s", c.idx, before, after))
+			x.report("C18:close-not-idempotent", fmt.Sprintf("a second Close() of connection %d changed state: %s -> %s", o.idx, before, after))
 		}
 		x.ev(op, ob)
 		x.follow('x', 0, nil)
 		return
 	}
-	if c.kind == 'b' && x.wouldCrash(c) && x.pendFile != "" {
+	if o.kind == 'b' && x.wouldCrash(o) && x.pendFile != "" {
 		// what is on record if the process dies in this Close()
 		js, _ := json.Marshal(map[string]string{"ops": x.line() + ";" + op, "obs": strings.Join(x.obs, ";")})
 		_ = os.WriteFile(x.pendFile, js, 0o644)
 	}
 	x.ue0, x.uc0 = int(x.v.counters().UnlockErrorCount), int(x.v.counters().UnLockCount)
 	pre := x.scan()
-	preHolds := map[int]bool{}
-	for tok, st := range x.live {
-		if st == 'h' && x.toks[tok].owner == c.idx {
-			preHolds[tok] = true
-		}
+	ph := map[*vConnC]map[int]bool{o: x.holdsOf(o)}
+	if act != o {
+		ph[act] = x.holdsOf(act)
 	}
 	switch cause {
 	case 'c':
-		_ = c.cli.Close()
+		_ = o.cli.Close()
 	case 's':
-		_ = c.stream.Close()
+		_ = o.stream.Close()
+	case 'q':
+		// binary QUIT: answered with a QuitResult, then Process() returns io.EOF
+		id := x.aux()
+		q := &protocol.QuitCommand{Command: protocol.Command{Magic: protocol.MAGIC, Version: protocol.VERSION, CommandType: protocol.COMMAND_QUIT, RequestId: vId16(id)}}
+		b := make([]byte, 64)
+		_ = q.Encode(b)
+		_ = o.write(b)
 	case 'e':
-		if c.kind == 'b' {
+		if act.kind == 'b' {
 			g := make([]byte, 64)
 			for i := range g {
 				g[i] = byte(0xa0 + i%7)
 			}
 			id := vId16(x.aux())
 			copy(g[3:19], id[:])
-			_ = c.write(g)
+			_ = o.write(g)
 		} else {
-			_ = c.write([]byte("!garbage\r\n"))
+			_ = o.write([]byte("!garbage\r\n"))
 		}
 	}
-	c.cliGone = true
-	if c.kind == 't' && c.blocked != 0 {
+	o.cliGone, act.cliGone = true, true
+	if act.kind == 't' && act.blocked != 0 {
 		// the handler is blocked in <-lockWaiter: the server cannot notice before the reply
 		x.settle()
 		ob := "defer"
-		if c.isDone() {
+		if o.isDone() {
 			ob = "closed-while-blocked"
 		}
 		x.ev(op, ob)
@@ -867,15 +1090,18 @@ func (x *vConnRun) close(c *vConnC, cause byte) {
 		x.check()
 		return
 	}
-	if !vConnWait(c.isDone, 3*time.Second) {
+	if !vConnWait(o.isDone, 3*time.Second) {
 		x.ev(op, "hang")
-		x.closeHang(c)
+		x.closeHang(act)
 		return
 	}
-	ob := x.closeEvidence(c, pre, preHolds)
+	ob := x.streamEvidence(o, pre, ph)
 	x.ev(op, ob)
-	x.out.stat(fmt.Sprintf("close-%s-%c-wills%d", vConnKindName(c.kind), cause, len(c.wills)))
-	if c.inited {
+	x.out.stat(fmt.Sprintf("close-%s-%c-wills%d", vConnKindName(o.kind), cause, len(o.wills)))
+	if act != o {
+		x.out.stat(fmt.Sprintf("close-admin-%c-wills%d", cause, len(act.wills)))
+	}
+	if o.inited {
 		x.out.stat("close-inited")
 	}
 	x.follow('x', 0, nil)
@@ -918,8 +1144,18 @@ func (x *vConnRun) closeEvidence(c *vConnC, pre vConnScan, preHolds map[int]bool
 	}
 	pairsRan := int(x.v.counters().UnLockCount) - x.uc0 - uoGone
 	pairsMissing := pairsAbsent - pairsRan // that many pairs show neither a hold nor a successful unlock
+	nUm := 0
+	for _, w := range c.wills {
+		if w.typ == "Um" {
+			nUm++
+		}
+	}
 	for i, w := range c.wills {
 		executed, why := true, ""
+		if w.cmd != nil && !x.cmdAttached(w) && !x.cmdFreed(w) {
+			// ProcessCommad never saw it: every path through it either stores the command in a lock or frees it
+			executed, why = false, "its command object is neither attached to a lock of its key nor back in the server's free list: ProcessCommad was not called for it"
+		}
 		if (w.typ == "Uw" || (w.typ == "L0" && w.pair != nil)) && pairsMissing > 0 {
 			tgt := w.tok
 			if w.typ == "Uw" {
@@ -959,7 +1195,7 @@ func (x *vConnRun) closeEvidence(c *vConnC, pre vConnScan, preHolds map[int]bool
 			if sc.holds[w.target] > 0 {
 				// the hold of the earlier will LOCK is still there
 				st := x.v.counters()
-				if int(st.UnlockErrorCount) > x.ue0 {
+				if int(st.UnlockErrorCount) > x.ue0+nUm {
 					x.orderBad = true
 					x.report("C18:will-order", fmt.Sprintf("connection %d registered will LOCK %d before will UNLOCK %d, but the unlock failed and the hold remains: executed in the wrong order", c.idx, w.target, w.tok))
 				} else {
@@ -974,6 +1210,9 @@ func (x *vConnRun) closeEvidence(c *vConnC, pre vConnScan, preHolds map[int]bool
 			if c.kind == 't' {
 				sig = "C18:will-not-executed-text" // the text protocol's wills are a separate code path (commandHandlerLock / TextServerProtocol.Close)
 			}
+			if c.outer != nil {
+				sig = "C18:will-not-executed-admin" // the nested text protocol of a binary ADMIN command ends in ProcessCommad, not in server.handle
+			}
 			x.report(sig, fmt.Sprintf("will %d (%s) of %s connection %d (registered at position %d of %d) shows no effect after Close(): %s", w.tok, w.typ, vConnKindName(c.kind), c.idx, i+1, len(c.wills), why))
 			continue
 		}
@@ -986,32 +1225,41 @@ func (x *vConnRun) closeEvidence(c *vConnC, pre vConnScan, preHolds map[int]bool
 			}
 		}
 		res := "q"
-		if w.imm {
+		if w.imm || w.self {
 			res = "drop"
-			n := 0
+			// one reply frame per will (a duplicated will frame has the same token twice)
 			for _, rc := range x.conns {
-				for {
-					f := rc.take(func(f *vConnFrame) bool { return f.kind == 'L' && f.tok == w.tok && rc.kind == 'b' })
-					if f == nil {
-						break
-					}
-					n++
-					res = fmt.Sprintf(">%d", rc.idx)
-					x.routed(w.tok, rc.idx)
-					if last, ok := lastIdxAt[rc.idx]; ok && last > i {
-						x.orderBad = true
-						x.report("C18:will-order", fmt.Sprintf("connection %d received the reply of will %d before the reply of a will registered earlier: wills of connection %d were not executed in registration order", rc.idx, w.tok, c.idx))
-					}
-					lastIdxAt[rc.idx] = i
+				f := rc.take(func(f *vConnFrame) bool { return f.kind == 'L' && f.tok == w.tok && rc.kind == 'b' })
+				if f == nil {
+					continue
 				}
-			}
-			if n > 1 {
-				x.report("C18:will-executed-twice", fmt.Sprintf("%d reply frames for will %d of connection %d", n, w.tok, c.idx))
+				res = fmt.Sprintf(">%d", rc.idx)
+				x.routed(w.tok, rc.idx)
+				if last, ok := lastIdxAt[rc.idx]; ok && last > i {
+					x.orderBad = true
+					x.report("C18:will-order", fmt.Sprintf("connection %d received the reply of will %d before the reply of a will registered earlier: wills of connection %d were not executed in registration order", rc.idx, w.tok, c.idx))
+				}
+				lastIdxAt[rc.idx] = i
+				break
 			}
 		} else if w.typ == "Lw" && sc.holds[w.tok] > 0 {
 			res = "genbug-imm"
 		}
+		if w.self {
+			res = "s" + res
+		}
 		parts = append(parts, fmt.Sprintf("%d:%s", w.tok, res))
+	}
+	// a second reply frame for a will that answers at once = it ran twice
+	for _, w := range c.wills {
+		if !(w.imm || w.self) {
+			continue
+		}
+		for _, rc := range x.conns {
+			if f := rc.take(func(f *vConnFrame) bool { return f.kind == 'L' && f.tok == w.tok && rc.kind == 'b' }); f != nil {
+				x.report("C18:will-executed-twice", fmt.Sprintf("connection %d received more reply frames for will %d of connection %d than wills were registered under that RequestId", rc.idx, w.tok, c.idx))
+			}
+		}
 	}
 	// order of the frames as they arrived (a will's reply frame position at its receiver)
 	x.frameOrder(c)
@@ -1036,6 +1284,17 @@ func (x *vConnRun) closeEvidence(c *vConnC, pre vConnScan, preHolds map[int]bool
 		}
 	}
 	s.clientsGlock.Unlock()
+	s.protocolSessionsGlock.Lock()
+	for _, se := range s.protocolSessions {
+		if (c.bp != nil && se.serverProtocol == ServerProtocol(c.bp)) || (c.tp != nil && se.serverProtocol == ServerProtocol(c.tp)) {
+			if c.outer != nil {
+				x.report("C18:session-leak-admin", fmt.Sprintf("the nested text protocol (record %d) of binary connection %d ended with the stream, but its session %d is still in SLock.protocolSessions", c.idx, c.outer.idx, se.sessionId))
+			} else {
+				x.report("C18:leak-after-close", fmt.Sprintf("closed connection %d still has session %d in SLock.protocolSessions", c.idx, se.sessionId))
+			}
+		}
+	}
+	s.protocolSessionsGlock.Unlock()
 	if !c.stream.closed {
 		x.report("C18:leak-after-close", fmt.Sprintf("stream of closed connection %d is not closed", c.idx))
 	}
@@ -1122,31 +1381,49 @@ func (x *vConnRun) heldByOthers(c *vConnC) []int {
 }
 
 func (x *vConnRun) safeClose(c *vConnC, cause byte) {
-	if x.wouldCrash(c) && !(x.risky && x.r.Intn(100) < 85) {
+	o := c
+	if c.outer != nil {
+		o = c.outer
+	}
+	if x.wouldCrash(o) && !(x.risky && x.r.Intn(100) < 85) {
 		// a same-id connection takes the registration over first (the crash needs clients[id] == the closing connection)
 		h := x.open('b', true)
-		x.init(h, c.cid)
+		x.init(h, o.cid)
 		x.out.stat("takeover-before-risky-close")
 	}
-	if x.wouldCrash(c) {
+	if x.wouldCrash(o) {
 		x.out.stat("risky-close-executed")
 	}
 	x.close(c, cause)
 }
 
 func (x *vConnRun) pickCause(c *vConnC) byte {
+	if c.nested != nil && !c.nested.srvClosed {
+		c = c.nested
+	}
 	if c.kind == 't' && c.blocked != 0 {
 		return []byte{'c', 's'}[x.r.Intn(2)]
+	}
+	if c.kind == 'b' && x.r.Intn(6) == 0 {
+		return 'q'
 	}
 	return []byte{'c', 'c', 'e', 's'}[x.r.Intn(4)]
 }
 
 func (x *vConnRun) step() {
 	r := x.r
-	free := x.openConns(func(c *vConnC) bool { return c.blocked == 0 })
-	all := x.openConns(nil)
+	free := x.openConns(func(c *vConnC) bool { return c.blocked == 0 && c.nested == nil })
+	all := x.openConns(func(c *vConnC) bool { return c.nested == nil })
 	n := r.Intn(100)
 	switch {
+	case n < 12 && len(all) > 0 && r.Intn(5) == 0 && len(x.conns) < 8:
+		// ADMIN: a binary connection switches to the text protocol on the same stream
+		for _, c := range free {
+			if c.kind == 'b' && !c.helper {
+				x.admin(c)
+				break
+			}
+		}
 	case len(all) == 0 || (n < 12 && len(x.conns) < 6):
 		k := byte('b')
 		if r.Intn(100) < 35 {
@@ -1188,11 +1465,59 @@ func (x *vConnRun) step() {
 			return
 		}
 		c := free[r.Intn(len(free))]
-		if len(c.wills) >= 6 && r.Intn(4) != 0 {
+		if len(c.wills) >= 5 && r.Intn(4) != 0 {
+			return
+		}
+		if r.Intn(100) < 3 {
+			// a long will list: crosses the node boundaries of the will queue (8, 24 entries)
+			nb := 7 + r.Intn(22)
+			for i := 0; i < nb && x.dead == ""; i++ {
+				bw := &vConnWill{typ: "L0", imm: true, key: x.newKey()}
+				switch r.Intn(4) {
+				case 1:
+					bw = &vConnWill{typ: "Um", imm: true, key: x.newKey(), target: 999999}
+				case 2:
+					bw = &vConnWill{typ: "Un", imm: true, self: true, key: x.newKey(), db: vConnDbMissing, target: 999999}
+				}
+				bw.tok = x.nextTok
+				x.nextTok++
+				x.will(c, bw)
+			}
+			x.out.stat("will-burst")
 			return
 		}
 		var w *vConnWill
-		switch m := r.Intn(100); {
+		m := r.Intn(136)
+		switch {
+		case m >= 100:
+			// the kinds the protocol answers itself, the ones the engine refuses, a db created by the will, a repeated frame
+			switch {
+			case m < 106:
+				if hs := x.ownHolds(c, func(tok int, ti *vConnTok) bool { return ti.long && !ti.wtgt && !ti.pin }); len(hs) > 0 {
+					h := hs[r.Intn(len(hs))]
+					x.toks[h].pin = true
+					w = &vConnWill{typ: "Ls", imm: true, key: x.toks[h].key, target: h}
+				}
+			case m < 113:
+				w = &vConnWill{typ: "Um", imm: true, key: x.newKey(), target: 999999}
+			case m < 119 && c.kind == 'b':
+				w = &vConnWill{typ: "Lx", imm: true, self: true, key: x.newKey(), db: 0xff}
+			case m < 125 && c.kind == 'b':
+				w = &vConnWill{typ: "Ux", imm: true, self: true, key: x.newKey(), db: 0xff, target: 999999}
+			case m < 131:
+				w = &vConnWill{typ: "Un", imm: true, self: true, key: x.newKey(), db: vConnDbMissing, target: 999999}
+			case m < 133 && c.kind == 'b' && x.v.slock.dbs[vConnDbNew] == nil && !x.usedNewDb:
+				x.usedNewDb = true
+				w = &vConnWill{typ: "Ln", imm: true, key: x.newKey(), db: vConnDbNew}
+			default:
+				for _, p := range c.wills {
+					if p.typ == "L0" && p.pair == nil && !p.noPair {
+						w = &vConnWill{typ: "Ld", imm: true, key: p.key, tok: p.tok}
+						p.noPair = true // no unlock will may pair with it any more
+						break
+					}
+				}
+			}
 		case m < 30:
 			w = &vConnWill{typ: "L0", imm: true, key: x.newKey()}
 		case m < 50:
@@ -1212,7 +1537,7 @@ func (x *vConnRun) step() {
 			}
 		default:
 			for _, p := range c.wills {
-				if p.typ == "L0" && p.pair == nil {
+				if p.typ == "L0" && p.pair == nil && !p.noPair {
 					w = &vConnWill{typ: "Uw", imm: true, key: p.key, target: p.tok, pair: p}
 					p.pair = w
 					break
@@ -1222,8 +1547,10 @@ func (x *vConnRun) step() {
 		if w == nil {
 			w = &vConnWill{typ: "L0", imm: true, key: x.newKey()}
 		}
-		w.tok = x.nextTok
-		x.nextTok++
+		if w.tok == 0 {
+			w.tok = x.nextTok
+			x.nextTok++
+		}
 		x.will(c, w)
 	case n < 64:
 		// LOCK
@@ -1346,6 +1673,13 @@ func (x *vConnRun) cleanup() {
 		}
 	}
 	x.v.replies = x.v.replies[:0]
+	if db := x.v.slock.dbs[vConnDbNew]; db != nil {
+		// the db a will created: park its background loops and forget it
+		db.status = STATE_CLOSE
+		x.v.slock.glock.Lock()
+		x.v.slock.dbs[vConnDbNew] = nil
+		x.v.slock.glock.Unlock()
+	}
 	for _, c := range x.conns {
 		if !vConnWait(c.isDone, 2*time.Second) && c.tp != nil {
 			for i := 0; i < 64 && !c.isDone(); i++ {
@@ -1434,7 +1768,12 @@ func vConnCase(v *vSeq, out *vOut, seed int64, idx int, risky bool, pendFile str
 			v.tick()
 		}
 		v.replies = v.replies[:0]
-		if now := vConnCensus(v); now != base {
+		now := vConnCensus(v)
+		if x.usedNewDb {
+			// the LockDB a will created brought its own AOF channel (one in-memory protocol session); the harness dropped the db
+			base.sessions = now.sessions
+		}
+		if now != base {
 			x.report("C18:leak-after-close", fmt.Sprintf("after every connection of the case closed, its queued requests ended, its holds were released and 18 s passed: census %+v, baseline %+v (key records, LockedCount, WaitCount, protocol sessions, client registrations)", now, base))
 		}
 	}
@@ -1535,6 +1874,71 @@ var vConnScripts = []func(x *vConnRun){
 		x.will(a, uw)
 		x.close(a, 's')
 	},
+}
+
+func vConnSelfWills(x *vConnRun, c *vConnC) {
+	ws := []*vConnWill{
+		{typ: "Ux", imm: true, self: true, key: x.newKey(), db: 0xff, target: 999999},
+		{typ: "L0", imm: true, key: x.newKey()},
+		{typ: "Un", imm: true, self: true, key: x.newKey(), db: vConnDbMissing, target: 999999},
+		{typ: "L0", imm: true, key: x.newKey()},
+		{typ: "Lx", imm: true, self: true, key: x.newKey(), db: 0xff},
+	}
+	for _, w := range ws {
+		w.tok = x.nextTok
+		x.nextTok++
+		x.will(c, w)
+	}
+}
+
+func init() {
+	vConnScripts = append(vConnScripts,
+		// 5: wills the protocol answers itself (unknown db) in first, middle and last position: the write of their reply
+		// fails on the closed connection, the wills after them must still run
+		func(x *vConnRun) {
+			x.open('b', false)
+			a := x.open('b', false)
+			vConnSelfWills(x, a)
+			x.close(a, 'c')
+		},
+		// 6: the same with a same-id reconnect: their UNKNOWN_DB replies are delivered to the new connection
+		func(x *vConnRun) {
+			a := x.open('b', false)
+			x.init(a, 7)
+			vConnSelfWills(x, a)
+			b := x.open('b', false)
+			x.init(b, 7)
+			x.close(a, 's')
+		},
+		// 7: text: an unlock will for a db that was never created, between two lock wills
+		func(x *vConnRun) {
+			x.open('b', false)
+			t := x.open('t', false)
+			ws := []*vConnWill{{typ: "L0", imm: true, key: x.newKey()}, {typ: "Un", imm: true, self: true, key: x.newKey(), db: vConnDbMissing, target: 999999}, {typ: "L0", imm: true, key: x.newKey()}}
+			for _, w := range ws {
+				w.tok = x.nextTok
+				x.nextTok++
+				x.will(t, w)
+			}
+			x.close(t, 'e')
+		},
+		// 8: ADMIN: a will on the binary connection, then wills and a hold on the nested text protocol of the same stream
+		func(x *vConnRun) {
+			x.open('b', false)
+			a := x.open('b', false)
+			w1 := &vConnWill{typ: "L0", imm: true, key: x.newKey(), tok: x.nextTok}
+			x.nextTok++
+			x.will(a, w1)
+			n := x.admin(a)
+			for i := 0; i < 2; i++ {
+				w := &vConnWill{typ: "L0", imm: true, key: x.newKey(), tok: x.nextTok}
+				x.nextTok++
+				x.will(n, w)
+			}
+			h := x.request(n, 'L', x.newKey(), 0, 0, 60)
+			x.toks[h].long = true
+			x.close(n, 'c')
+		})
 }
 
 func vConnChild(seed int64, idx int, parent *vOut) {
